@@ -31,7 +31,11 @@ def dispatch (prop : String) (args : List String) (impl : String) : Verdict :=
   | "C02" => C02.handle args impl
   | "C03" => C01.handleC03 args impl
   | "C04" => C04.handle args impl
-  | "C05" => C01.handleC05 args impl
+  | "C05" =>
+    -- "B=" cases run over the bus with a subscription to up.> and are judged by the rebroadcast model of C06
+    (match args with
+     | [c] => if c.startsWith "B=" then C06.handle [(c.drop 2).toString] impl else C01.handleC05 args impl
+     | _ => C01.handleC05 args impl)
   | "C06" => C06.handle args impl
   | "C07" => C07.handle args impl
   | "C08" => C08.handle args impl
